@@ -41,6 +41,8 @@ def strategy_(draw, tier):
     out = dict(labels=lbls, opts=opts, mode=mode)
     if mode == "force" and not small and spec.get("via"):
         out["via"] = spec["via"]
+    if not small and spec.get("late_width"):
+        out["late_width"] = True
     if mode == "distributor":
         o = {k: v for k, v in opts.items() if k in ("algorithm", "density", "nodeSpacing", "stubWidth")}
         lw = draw(st.sampled_from(["d", None, 0, "fromopts", "fromopts", "fromopts"]))
@@ -69,7 +71,7 @@ def check(spec, ctx):
     ctx.event("mode:" + mode)
 
     def thunk():
-        nodes = engine.build_nodes(lbls)
+        nodes = engine.build_nodes(lbls, spec.get("late_width", False))
         if mode == "force":
             f = engine.make_force(spec)
             f.nodes(nodes)
